@@ -222,13 +222,22 @@ def _steps_arg(spec):
     return [float(v) for v in spec[1]]
 
 
-def impl_design(coords, spec, swap):
+def impl_design(coords, spec, swap, reuse=False):
     from virocon.utils import calculate_design_conditions
 
     try:
         with warnings.catch_warnings():
             warnings.simplefilter("ignore")
-            dc = calculate_design_conditions(_Contour(coords), _steps_arg(spec), swap_axis=swap)
+            contour = _Contour(coords)
+            if reuse:
+                # history: the same contour object has already been asked for design conditions, with the other
+                # and with the same swap_axis; the evaluated call must behave as on a fresh contour
+                for sw in (not swap, swap):
+                    try:
+                        calculate_design_conditions(contour, _steps_arg(spec), swap_axis=sw)
+                    except Exception:  # noqa: BLE001
+                        pass
+            dc = calculate_design_conditions(contour, _steps_arg(spec), swap_axis=swap)
     except Exception as e:  # noqa: BLE001
         return {"err": type(e).__name__, "msg": str(e)[:200]}
     dc = np.asarray(dc, dtype=float)
@@ -928,7 +937,7 @@ def process_design(ck, cases):
     """cases: dict(kind=design, gen, coords, spec, swap)"""
     lines, impls = [], []
     for case in cases:
-        impls.append(impl_design(case["coords"], case["spec"], case["swap"]))
+        impls.append(impl_design(case["coords"], case["spec"], case["swap"], case.get("reuse", False)))
         lines += design_lines(case["coords"], case["spec"], case["swap"])
     ans = ck.driver.run(lines) if lines else []
     for n, case in enumerate(cases):
@@ -942,6 +951,8 @@ def process_design(ck, cases):
         ck.count("design:gen=" + case["gen"].split(":")[0])
         ck.count("design:steps=" + spec[0] + (":" + spec[2] if len(spec) > 2 else ""))
         ck.count("design:swap=" + str(bool(swap)))
+        if case.get("reuse"):
+            ck.count("design:contour_object_used_before")
         ck.count("design:max_crossings=" + (str(ncross) if ncross < 5 else "5+"))
         if "res" in impl and "steps" in mF:
             ck.count("design:omitted_steps", len(mF["steps"]) - len(impl["res"]))
@@ -999,7 +1010,8 @@ def design_case_list(rng, polys, lattice=False):
     for name, coords in polys:
         for swap in (False, True):
             for spec in step_specs(rng, coords, swap, lattice=lattice):
-                cases.append({"kind": "design", "gen": name, "coords": np.asarray(coords).tolist(), "spec": spec, "swap": swap})
+                cases.append({"kind": "design", "gen": name, "coords": np.asarray(coords).tolist(), "spec": spec, "swap": swap,
+                              "reuse": len(cases) % 3 == 1})
     return cases
 
 
@@ -1097,7 +1109,7 @@ def replay(ck, payload):
         print("implementation:", impl)
     else:
         coords, spec, swap = case["coords"], tuple(case["spec"]), case["swap"]
-        impl = impl_design(coords, spec, swap)
+        impl = impl_design(coords, spec, swap, case.get("reuse", False))
         mF = mQ = None
         steps = []
         if ck.driver:
